@@ -1,10 +1,10 @@
-\* quick, strings: every string of <= 3 graphemes over all 7 kinds, as a one-item line
+\* thorough, lines: <= 3 items of <= 2 graphemes over {a, 好, space, U+3000}
 CONSTANTS
-  KindIds = {1, 2, 3, 4, 5, 6, 7}
-  MaxLen = 3
-  MaxItems = 1
-  MaxW = 4
-  ND = 3
+  KindIds = {1, 2, 3, 6}
+  MaxLen = 2
+  MaxItems = 3
+  MaxW = 5
+  ND = 2
   Orig = FALSE
   GW <- MCGW
   GB <- MCGB
@@ -14,4 +14,4 @@ CONSTANTS
   Delims <- MCDelims
 SPECIFICATION Spec
 INVARIANTS NoPanic WidthBound Shape StrSound IterBound FuncAgrees EmitInv
-PROPERTIES Decreases
+PROPERTIES Decreases Termination
